@@ -51,6 +51,7 @@ from typing import (
 import fontMath
 import fontTools.misc.fixedTools
 from fontTools import designspaceLib, varLib
+from fontTools.pens.filterPen import FilterPointPen
 
 from ufo2ft.util import (
     _getNewGlyphFactory,
@@ -832,6 +833,18 @@ def italic_angle_from_slnt_value(slnt_user_value) -> Union[int, float]:
     return slant_user_value
 
 
+class _SwapComponentsPointPen(FilterPointPen):
+    """Pass everything through, exchanging two base glyph names in components."""
+
+    def __init__(self, outPen, name_a, name_b):
+        super().__init__(outPen)
+        self._swap = {name_a: name_b, name_b: name_a}
+
+    def addComponent(self, baseGlyphName, transformation, **kwargs):
+        baseGlyphName = self._swap.get(baseGlyphName, baseGlyphName)
+        self._outPen.addComponent(baseGlyphName, transformation, **kwargs)
+
+
 def swap_glyph_names(font: Any, name_old: str, name_new: str):
     """Swap two existing glyphs in the default layer of a font (outlines,
     width, component references, kerning references, group membership).
@@ -853,39 +866,49 @@ def swap_glyph_names(font: Any, name_old: str, name_new: str):
             )
         )
 
+    if name_old == name_new:
+        return  # nothing to swap
+
     # 1. Swap outlines and glyph width. Ignore lib content and other properties.
+    # Both outlines are first drawn into temporary glyphs, with their component
+    # references to the two glyphs already exchanged. Both glyphs are then emptied
+    # and the references of all other glyphs exchanged (3.) before either glyph is
+    # redrawn: when one of the two reaches the other through components, the font
+    # must never contain a component cycle, not even temporarily.
     glyph_old = font[name_old]
     glyph_new = font[name_new]
-    glyph_swap = _getNewGlyphFactory(glyph_old)(name="temporary_swap_glyph")
+    newGlyph = _getNewGlyphFactory(glyph_old)
+    glyph_swap_old = newGlyph(name="temporary_swap_glyph_old")
+    glyph_swap_new = newGlyph(name="temporary_swap_glyph_new")
 
-    p = glyph_swap.getPointPen()
+    p = _SwapComponentsPointPen(glyph_swap_old.getPointPen(), name_old, name_new)
     glyph_old.drawPoints(p)
-    glyph_swap.width = glyph_old.width
-
-    glyph_old.clearContours()
-    glyph_old.clearComponents()
-    p = glyph_old.getPointPen()
+    glyph_swap_old.width = glyph_old.width
+    p = _SwapComponentsPointPen(glyph_swap_new.getPointPen(), name_old, name_new)
     glyph_new.drawPoints(p)
-    glyph_old.width = glyph_new.width
+    glyph_swap_new.width = glyph_new.width
 
-    glyph_new.clearContours()
-    glyph_new.clearComponents()
-    p = glyph_new.getPointPen()
-    glyph_swap.drawPoints(p)
-    glyph_new.width = glyph_swap.width
+    for glyph in (glyph_old, glyph_new):
+        glyph.clearContours()
+        glyph.clearComponents()
 
-    # 2. Swap anchors.
-    glyph_swap.anchors = [dict(a) for a in glyph_old.anchors]
-    glyph_old.anchors = [dict(a) for a in glyph_new.anchors]
-    glyph_new.anchors = [dict(a) for a in glyph_swap.anchors]
-
-    # 3. Remap components.
+    # 3. Remap components, while the two glyphs are empty.
     for g in font:
         for c in g.components:
             if c.baseGlyph == name_old:
                 c.baseGlyph = name_new
             elif c.baseGlyph == name_new:
                 c.baseGlyph = name_old
+
+    glyph_swap_new.drawPoints(glyph_old.getPointPen())
+    glyph_old.width = glyph_swap_new.width
+    glyph_swap_old.drawPoints(glyph_new.getPointPen())
+    glyph_new.width = glyph_swap_old.width
+
+    # 2. Swap anchors.
+    glyph_swap_old.anchors = [dict(a) for a in glyph_old.anchors]
+    glyph_old.anchors = [dict(a) for a in glyph_new.anchors]
+    glyph_new.anchors = [dict(a) for a in glyph_swap_old.anchors]
 
     # 4. Swap literal names in kerning.
     kerning_new = {}
